@@ -600,7 +600,10 @@ where
         }
 
         // Not considering the whole header
-        if data.len() > self.config.max_packet_size.get() {
+        if data.len() > self.config.max_packet_size.get()
+            // The length of each item is sent as a u16
+            || data.len() > usize::from(u16::MAX)
+        {
             return Err(Error::DataTooBig);
         }
 
